@@ -231,6 +231,7 @@ def matchPlans : List TStep → List TStep → Bool
   | [.txtPair], [.txtPair] => true
   | [.txtFirst], [.txtFirst] => true
   | [.octet], [.octet] => true
+  | [.salt], [.salt, .slurp] => true
   | [.endStr _], [.endStr _] => true
   | [.endStr _], [.tok, .slurp] => true
   | [p], [q, .slurp] => kindEq p q
@@ -389,6 +390,8 @@ inductive Fits : List TStep → List TStep → List TVal → List TVal → Prop
       Fits [.txtPair] [.txtPair] [.s (txtEscape a), .s (txtEscape b)] [.s (txtEscape a), .s (txtEscape b)]
   | first (a : Bytes) (ha : a.length ≤ 255) : Fits [.txtFirst] [.txtFirst] [.s (txtEscape a)] [.s (txtEscape a)]
   | octet (raw : Bytes) : Fits [.octet] [.octet] [.s (octEsc raw)] [.s (txtEscape raw)]
+  | salt (t : Bytes) (h : t = [] ∨ (RestWF t ∧ upperAscii t ≠ [45])) :
+      Fits [.salt] [.salt, .slurp] [.s t] [.s (if t = [] then [] else upperAscii t)]
   | rest (u u' : Bool) (t : Bytes) (h : RestWF t) : Fits [.endStr u] [.endStr u'] [.s t] [.s (normRest u t)]
   | tok (u : Bool) (t : Bytes) (h : RestWF t) : Fits [.endStr u] [.tok, .slurp] [.s t] [.s (normRest u t)]
   | last (p q : TStep) (v : TVal) (hk : kindEq p q = true) (hw : FieldWF q v) : Fits [p] [q, .slurp] [v] [v]
@@ -467,6 +470,22 @@ theorem text_roundtrip (P Q : List TStep) (vals vals' : List TVal) (hf : Fits P 
     · obtain ⟨t, ht, tv, tt, te⟩ := a8 hbs
       rw [ht]
       simp [parsePlan, endingToOctet, octetTokens, a1, a2, a3, a4, hbv, tv, te, tt, hesc, zQuote, zNewline, zString, zBlank]
+  | salt t h =>
+    have hword : Word (if t.isEmpty then [45] else upperAscii t) := by
+      rcases h with rfl | ⟨h, _⟩
+      · exact ⟨by decide, by decide⟩
+      · have hne : t.isEmpty = false := by cases t with | nil => exact absurd rfl h.1 | cons _ _ => rfl
+        rw [hne]
+        exact normRest_word true t h
+    obtain ⟨tk, b, zl', hs, htk, hte, htv, hbv, hbe⟩ := rdata_last_tokens zl _ rest hL hword
+    refine ⟨if t.isEmpty then [45] else upperAscii t, by simp [printPlan, printStep], ?_⟩
+    rw [hs]
+    simp only [parsePlan, headTok, hte, Bool.false_eq_true, ↓reduceIte, List.tail_cons, slurpRemainder, hbv, htk]
+    rcases h with rfl | ⟨h, hd⟩
+    · simp [zNewline, zBlank]
+    · have hne : t.isEmpty = false := by cases t with | nil => exact absurd rfl h.1 | cons _ _ => rfl
+      have hne' : t ≠ [] := h.1
+      simp [hne, hne', hd, zNewline, zBlank]
   | rest u u' t h =>
     have hw := normRest_word u t h
     obtain ⟨tk, b, zl', hs, htk, hte, htv, hbv, hbe⟩ := rdata_last_tokens zl (normRest u t) rest hL hw
